@@ -774,6 +774,14 @@ func (vm *vm) popTryFrame() {
 	vm.tryStack = vm.tryStack[:len(vm.tryStack)-1]
 }
 
+// leaveTryFrame removes the marker frame that was pushed when the try stack had height l. It is meant
+// to be deferred: if a panic escapes from handleThrow() (an iterator's return() was interrupted while
+// an exception was being handled) there still are frames above the marker, and popping just the top
+// one would leave the marker behind for the enclosing handler to mistake for its own.
+func (vm *vm) leaveTryFrame(l int) {
+	vm.tryStack = vm.tryStack[:l]
+}
+
 func (vm *vm) restoreStacks(iterLen, refLen uint32) (ex *Exception) {
 	return vm.unwindStacks(iterLen, refLen, true)
 }
@@ -859,8 +867,8 @@ func (vm *vm) throw(v interface{}) {
 }
 
 func (vm *vm) try(f func()) (ex *Exception) {
+	defer vm.leaveTryFrame(len(vm.tryStack))
 	vm.pushTryFrame(tryPanicMarker, -1)
-	defer vm.popTryFrame()
 
 	defer func() {
 		if x := recover(); x != nil {
@@ -873,8 +881,8 @@ func (vm *vm) try(f func()) (ex *Exception) {
 }
 
 func (vm *vm) runTry() (ex *Exception) {
+	defer vm.leaveTryFrame(len(vm.tryStack))
 	vm.pushTryFrame(tryPanicMarker, -1)
-	defer vm.popTryFrame()
 
 	for {
 		ex = vm.runTryInner()
